@@ -201,7 +201,7 @@ Proof.
   apply in_map_iff in Hd. destruct Hd as (d0 & <- & Hd0).
   destruct o; cbn [sub_tasks] in Hx; try (apply in_map_iff in Hx; destruct Hx as (i & Ei & _); inversion Ei; subst; destruct Hd0).
   apply in_map_iff in Hx. destruct Hx as (g & Eg & Hg). inversion Eg; subst i0 ds0. clear Eg.
-  cbn [step] in H. destruct (bad_graph_rq _ _); [inversion H; subst; destruct Hin as [Hin|[]]; discriminate|].
+  cbn [step] in H. destruct (bad_graph_rq _ _); [inversion H; subst; destruct Hin as [Hin|[]]; discriminate|]. destruct (dead_dep _ _ _); [inversion H; subst; destruct Hin as [Hin|[]]; discriminate|].
   split; [exact (handle_submit_graph_tids _ _ _ _ _ _ H)|].
   assert (P : PRE (s, [])) by (split; [exact (inv_d _ HI) | exact (inv_dj _ HI)]).
   destruct (submit_graph_X (s, []) _ _ _ _ (s', outs) (inv_fresh _ HI) P (inv_cb _ HI) H) as (_ & q & Eq & Hq).
